@@ -37,6 +37,12 @@ def vocabulary():
          'kw': {'quantity': '5 mg', 'total_quantity': '0.5 mL'}},
         {'op': 'create_solution_from', 'src': 'A', 'solute': 'nacl', 'conc': '0.05 M', 'solvent': 'water', 'q': '2 mL',
          'name': 'F'},
+        # a solvent the source does not hold
+        {'op': 'create_solution_from', 'src': 'A', 'solute': 'nacl', 'conc': '0.04 M', 'solvent': 'dmso', 'q': '1.5 mL',
+         'name': 'F'},
+        {'op': 'dilute', 'obj': 'A', 'solute': 'nacl', 'conc': '0.15 M', 'solvent': 'dmso'},
+        # a dilution that renames the container inside the recipe
+        {'op': 'dilute', 'obj': 'A', 'solute': 'nacl', 'conc': '0.12 M', 'solvent': 'water', 'new_name': 'A-diluted'},
     ]
     return v
 
@@ -107,7 +113,7 @@ def add_step(pp, subs, world, handles, recipe, act):
     elif op == 'fill_to':
         recipe.fill_to(obj(act['obj']), subs[act['solvent']], act['q'])
     elif op == 'dilute':
-        recipe.dilute(obj(act['obj']), subs[act['solute']], act['conc'], subs[act['solvent']])
+        recipe.dilute(obj(act['obj']), subs[act['solute']], act['conc'], subs[act['solvent']], act.get('new_name'))
     elif op == 'new_container':
         handles[act['name']] = recipe.create_container(act['name'], act['max'],
                                                        [(subs[x], q) for x, q in act['contents']] or None)
